@@ -519,6 +519,286 @@ def race_run(work, seed):
     return dict(reports=reports[:5], total_race_warnings=p.stderr.count('WARNING: DATA RACE') + ksp.stderr.count('WARNING: DATA RACE'), exit=p.returncode)
 
 
+# ---------------------------------------------------------------------------------------------
+# C18 composite keys
+
+def compkey_check(tier, seed):
+    import itertools
+    pid = 'C18'
+    t0 = time.time()
+    q = tier == 'quick'
+    work = vlib.scratch(pid)
+    try:
+        vlib.copy_spec(work)
+        harness = vlib.build_harness()
+        byts = [0, 1, 2] if q else [0, 1, 2, 7]
+        maxcomps = 2 if q else 3
+        if not q:
+            byts = [0, 1, 2]      # 3 byte values x 3 components: 2380 tuples, 5.6M ordered pairs
+        mc_wrapper(work, 'MCCompKey', 'CompKey', dict(BytesC='{' + ', '.join(map(str, byts)) + '}'))
+        write_raw_cfg(os.path.join(work, 'ck.cfg'), ['SPECIFICATION Spec', 'CONSTANTS', '  MaxLen = 2', '  Bytes <- BytesC', '  MaxComps = %d' % maxcomps, '  MaxStr = %d' % (5 if q else 6),
+                                                 'INVARIANTS RoundTrip Injective PrefixExact RejectsTooLong DecodeTotal StringForm CaseDump', 'CHECK_DEADLOCK FALSE'])
+        rc, out, wall = vlib.run_tlc(work, 'MCCompKey.tla', 'ck.cfg', workers=vlib.NCPU, heap='16g', timeout=2400)
+        err = vlib.tlc_failed(out)
+        if err:
+            raise Inconclusive('CompKey.tla model checking reported: %s\n%s' % (err, out[-2500:]))
+        gen, dist, depth = vlib.parse_mc_summary(out)
+        cases = []
+        for v in printed_values(out, 'CASE'):
+            cases.append(dict(k='enc', t=v[1]))
+        nmodel = len(cases)
+        # the decoder on every byte string of the model's domain
+        for n in range(0, (5 if q else 6) + 1):
+            for s in itertools.product(byts, repeat=n):
+                cases.append(dict(k='dec', s=list(s)))
+        # real-size boundaries that the scaling hides
+        lens = [0, 1, 2, 7, 8, 20, 127, 128, 254, 255, 256, 257, 300, 1000]
+        for L in lens:
+            for fill in (0, L % 256, 255, 1):
+                cases.append(dict(k='enc', t=[[fill] * L]))
+                cases.append(dict(k='enc', t=[[1], [fill] * L]))
+                cases.append(dict(k='enc', t=[[fill] * L, [L % 256] * (L % 256)]))
+                cases.append(dict(k='enc', t=[[2, fill], [fill] * L, []]))
+        for a in ([], [0], [1], [2], [1, 1], [2, 0, 0], [255]):
+            for b in ([], [0], [1, 0], [0, 0, 0], [3, 1, 2]):
+                cases.append(dict(k='enc', t=[a, b]))
+                cases.append(dict(k='enc', t=[a, b, a, b]))
+        for n in range(0, 5):
+            for s in itertools.product([0, 1, 2, 255], repeat=n):
+                cases.append(dict(k='dec', s=list(s)))
+        for L in (254, 255):
+            cases.append(dict(k='dec', s=[255] + [9] * L))
+            cases.append(dict(k='dec', s=[L] + [9] * L + [1]))
+            cases.append(dict(k='dec', s=[L] + [9] * L + [0]))
+        # typed keys: structurally valid strings whose components are legal or illegal for the type
+
+        def enc(comps):
+            out = []
+            for c in comps:
+                out += [len(c)] + c
+            return out
+        addrs = [[], [5], [5] * 20, [5] * 32, [5] * 255]
+        names = [[], [97], [97] * 70, [97] * 255]
+        offs = [[], [0], [0] * 7, [0] * 8, [0, 0, 0, 0, 0, 0, 1, 0], [0] * 9, [1] * 16]
+        for ty in ('owner', 'topic', 'writer', 'record'):
+            for a in addrs:
+                cases.append(dict(k='typed', type=ty, s=enc([a])))
+                for nm in names:
+                    cases.append(dict(k='typed', type=ty, s=enc([a, nm])))
+                    for third in (offs if ty == 'record' else addrs + offs[3:4]):
+                        cases.append(dict(k='typed', type=ty, s=enc([a, nm, third])))
+                    cases.append(dict(k='typed', type=ty, s=enc([a, nm, [0] * 8, [1]])))
+            cases.append(dict(k='typed', type=ty, s=[]))
+            cases.append(dict(k='typed', type=ty, s=[3, 1]))
+        # string form of everything the validators admit
+        alpha = [97, 65, 48, 46, 95, 45, 47, 32, 10, 195, 169]
+        for n in (1, 2, 3):
+            for s in itertools.product(alpha, repeat=n):
+                if n < 3 or 47 in s or s[0] == 97:
+                    cases.append(dict(k='str', name=list(s)))
+        cases.append(dict(k='str', name=[97] * 70))
+        cases.append(dict(k='str', name=[97] * 69 + [47]))
+        cf_in = os.path.join(work, 'ck-cases.ndjson')
+        with open(cf_in, 'w') as f:
+            for c in cases:
+                f.write(json.dumps(c) + '\n')
+        obs = os.path.join(work, 'ck-obs.ndjson')
+        p = subprocess.run([harness, 'compkey', cf_in, obs], capture_output=True, text=True, timeout=1200)
+        if p.returncode != 0:
+            raise Inconclusive('harness compkey failed: ' + p.stderr[-2000:])
+        # split for parallel validation
+        lines = open(obs).read().splitlines()
+        parts = []
+        for ci, ch in enumerate(vlib.chunks(lines, vlib.NCPU)):
+            pf = os.path.join(work, 'ck-obs-%d.ndjson' % ci)
+            open(pf, 'w').write('\n'.join(ch) + '\n')
+            parts.append(pf)
+        mc_wrapper(work, 'MCCompKeyTrace', 'CompKeyTrace', dict(BytesC='{}'))
+        write_raw_cfg(os.path.join(work, 'cktrace.cfg'), ['SPECIFICATION TraceSpec', 'CONSTANTS', '  MaxLen = 255', '  Bytes <- BytesC', '  MaxComps = 0', '  MaxStr = 0',
+                                                      'POSTCONDITION TraceAccepted', 'CHECK_DEADLOCK FALSE'])
+        viol, drift, nl = validate_with(work, 'MCCompKeyTrace.tla', 'cktrace.cfg', parts, heap='4g')
+        for v in viol:
+            # map the line of the chunk back to the case
+            idx = parts.index(v['file']) * len(vlib.chunks(lines, vlib.NCPU)[0]) + v['line'] - 1
+            v['case'] = cases[idx] if idx < len(cases) else None
+            v['run'] = v['run'] + ':' + (json.dumps(v['case'])[:80] if v['case'] else '?')
+        cov = dict(states=dist, transitions=gen, traces_validated_against_impl=len(cases), samples=cases[:2] + cases[nmodel + 400:nmodel + 402] + cases[-3:-1],
+                   evaluations=len(cases), distinct_nontrivial=len({json.dumps(c) for c in cases}),
+                   rule='exhaustive: all tuples of <=%d components over bytes %s with length <=2 (every ordered pair for injectivity and prefix-exactness), all byte strings up to length %d for the decoder; '
+                        'binding: every tuple of that domain, every such byte string, real-size boundaries (lengths 0..1000 around 255/256, content bytes equal to length bytes), typed-key strings with legal and '
+                        'illegal components, and validator-admitted topic names through the string form; every case is distinct' % (maxcomps, byts, 5 if q else 6),
+                   exhaustive=True, model_domain_tuples=nmodel)
+        return conclude(pid, tier, seed, t0, viol, drift, cov,
+                        ['scaled bound MaxLen=2 stands for 255 in the exhaustive part; the real bound is exercised by the boundary cases only',
+                         'the decoder is exercised through a raw CompositeKey (plain byte-slice components) and through the four typed keys of x/aol'],
+                        {}, sig_of=lambda v: v['run'].split(':')[0])
+    finally:
+        shutil.rmtree(work, ignore_errors=True)
+
+
+# ---------------------------------------------------------------------------------------------
+# C14 sign bytes
+
+def signbytes_check(tier, seed):
+    pid = 'C14'
+    t0 = time.time()
+    q = tier == 'quick'
+    work = vlib.scratch(pid)
+    try:
+        vlib.copy_spec(work)
+        harness = vlib.build_harness()
+        consts = configs.mk(Accts=S(['a1', 'a2']), Topics=S(['t1', 't2']), Descs=S(['', 'x']), Mons=S(['', 'm']), RecKeys=S(['', 'k1']), RecVals=S(['', 'v1']) if q else S(['', 'v1', 'v2']),
+                            FeePayers=S(['none', 'a1', 'a2']), Dids=S(['d1', 'dc']), DocNames=S(['A1', 'A2']) if q else S(['A1', 'A2', 'C1', 'D2']), Keys=S(['k1']) if q else S(['k1', 'k2']),
+                            VmNames=S(['v1']), Seqs=S([0]) if q else S([0, 1]), DenomIds=S(['n1', 'n2']), TokenIds=S(['i1', 'i2']), DNames=S(['x', 'y']),
+                            Kinds=configs.AOL_KINDS | configs.DID_KINDS | configs.PN_KINDS)
+        cfg = os.path.join(work, 'sb.cfg')
+        vlib.write_cfg(cfg, 'SBSpec', consts, (), ['DirectInjective', 'AminoInjectiveUpToKnown', 'CaseDump'])
+        rc, out, wall = vlib.run_tlc(work, 'SignBytes.tla', 'sb.cfg', workers=vlib.NCPU, heap='16g', timeout=2400)
+        err = vlib.tlc_failed(out)
+        if err:
+            raise Inconclusive('SignBytes.tla model checking reported: %s\n%s' % (err, out[-2500:]))
+        gen, dist, depth = vlib.parse_mc_summary(out)
+        cases = []
+        for v in printed_values(out, 'CASE'):
+            cases.append(dict(id='m%d' % len(cases), m=v[1], akey=v[2]))
+        # non-vacuity: the recorded collision classes exist in the specification (the witness invariant must be violated)
+        vlib.write_cfg(cfg, 'SBSpec', consts, (), ['W_NoKnownCollision'])
+        rc2, out2, _ = vlib.run_tlc(work, 'SignBytes.tla', 'sb.cfg', workers=4, heap='4g', timeout=1200)
+        model_has_collisions = 'is violated' in out2
+        cf_in = os.path.join(work, 'sb-cases.ndjson')
+        with open(cf_in, 'w') as f:
+            for c in cases:
+                f.write(json.dumps(c) + '\n')
+        obs = []
+        for k in (0, 1):
+            of = os.path.join(work, 'sb-obs-%d.ndjson' % k)
+            p = subprocess.run([harness, 'signbytes', cf_in, of], capture_output=True, text=True, timeout=1200, env=dict(os.environ, GOMAXPROCS='1' if k else '16'))
+            if p.returncode != 0:
+                raise Inconclusive('harness signbytes failed: ' + p.stderr[-2000:])
+            obs.append(open(of).read())
+        recs = [json.loads(l) for l in obs[0].splitlines()]
+        tf = os.path.join(work, 'sb-trace.ndjson')
+        with open(tf, 'w') as f:
+            f.write(json.dumps(dict(ev='xproc', equal=obs[0] == obs[1], id='xproc', i=0)) + '\n')
+            for by in ('direct', 'aux', 'amino', 'akey'):
+                f.write(json.dumps(dict(ev='section', by=by)) + '\n')
+                for r in sorted(recs, key=lambda r: (r[by], r['i'])):
+                    f.write(json.dumps(r) + '\n')
+        write_raw_cfg(os.path.join(work, 'sbtrace.cfg'), ['SPECIFICATION TraceSpec', 'POSTCONDITION TraceAccepted', 'CHECK_DEADLOCK FALSE'])
+        viol, drift, nl = validate_with(work, 'SignBytesTrace.tla', 'sbtrace.cfg', [tf], heap='4g')
+        byid = {c['id']: c for c in cases}
+        groups = {}
+        for r in recs:
+            if r['amino'] != 'unavailable':
+                groups.setdefault(r['amino'], []).append(r)
+        coll = [g for g in groups.values() if len(g) > 1]
+        cov = dict(states=dist, transitions=gen, traces_validated_against_impl=len(cases), samples=[cases[0], cases[len(cases) // 2]], evaluations=len(cases) * 3,
+                   distinct_nontrivial=len(cases),
+                   rule='every message of the alphabet (14 types, every field from a small set that includes the empty value; %d messages) has its REAL sign bytes computed in DIRECT, DIRECT_AUX and '
+                        'LEGACY_AMINO_JSON (three times in-process and once in a GOMAXPROCS=1 process); all ordered pairs are compared through sorting; the specification side checks all ordered pairs' % len(cases),
+                   exhaustive=True, real_amino_collision_groups=len(coll), model_predicts_known_collisions=model_has_collisions,
+                   example_collision=[[r['type'], byid[r['id']]['m']] for r in coll[0][:3]] if coll else None)
+        return conclude(pid, tier, seed, t0, viol, drift, cov,
+                        ['field values come from a finite alphabet (including empty optional fields), not all strings', 'pnft messages are not LegacyMsg: amino-JSON mode is unavailable for them (vacuous)'],
+                        {r['id']: byid[r['id']] for r in recs}, sig_of=lambda v: 'collision')
+    finally:
+        shutil.rmtree(work, ignore_errors=True)
+
+
+# ---------------------------------------------------------------------------------------------
+# C16 stateless acceptance / C17 totality
+
+def shapes_check(pid, tier, seed):
+    t0 = time.time()
+    q = tier == 'quick'
+    work = vlib.scratch(pid)
+    try:
+        vlib.copy_spec(work)
+        harness = vlib.build_harness()
+        write_raw_cfg(os.path.join(work, 'sh.cfg'), ['SPECIFICATION Spec', 'CONSTANTS', '  Depth = 2', 'INVARIANTS BaselineAccepted VerdictTotal Monotone CaseDump', 'CHECK_DEADLOCK FALSE'])
+        rc, out, wall = vlib.run_tlc(work, 'Shapes.tla', 'sh.cfg', workers=vlib.NCPU, heap='16g', timeout=2400)
+        err = vlib.tlc_failed(out)
+        if err:
+            raise Inconclusive('Shapes.tla model checking reported: %s\n%s' % (err, out[-2500:]))
+        gen, dist, depth = vlib.parse_mc_summary(out)
+        cases = []
+        for v in printed_values(out, 'CASE'):
+            c = v[1]
+            kind = 'query' if c['type'].startswith('q.') else ('keystore' if c['type'].startswith('ks.') else 'msg')
+            cases.append(dict(k=kind, type=c['type'], f=c['f'], oracle=v[2]))
+        cases.sort(key=lambda c: json.dumps(c, sort_keys=True))
+        if pid == 'C16':
+            cases = [c for c in cases if c['k'] == 'msg']
+        # deterministic rotation by seed so that different seeds put different cases next to each other in the shared chains
+        rot = (seed * 997) % max(1, len(cases))
+        cases = cases[rot:] + cases[:rot]
+        parts_in, parts_out, procs = [], [], []
+        for ci, ch in enumerate(vlib.chunks(cases, vlib.NCPU)):
+            fi = os.path.join(work, 'sh-cases-%d.ndjson' % ci)
+            fo = os.path.join(work, 'sh-obs-%d.ndjson' % ci)
+            with open(fi, 'w') as f:
+                for c in ch:
+                    f.write(json.dumps(c) + '\n')
+            procs.append((subprocess.Popen([harness, 'shapes', fi, fo], stdout=subprocess.PIPE, stderr=subprocess.PIPE, text=True), fo))
+        for p, fo in procs:
+            so, se = p.communicate(timeout=3000)
+            if p.returncode != 0:
+                raise Inconclusive('harness shapes failed: ' + se[-3000:])
+            parts_out.append(fo)
+        write_raw_cfg(os.path.join(work, 'shtrace.cfg'), ['SPECIFICATION TraceSpec', 'CONSTANTS', '  Depth = 0', 'POSTCONDITION TraceAccepted', 'CHECK_DEADLOCK FALSE'])
+        viol, drift, nl = validate_with(work, 'ShapesTrace.tla', 'shtrace.cfg', parts_out, heap='4g')
+        chain_stats = None
+        if pid == 'C17':
+            # totality is also monitored on chain-level behaviours: every ABCI call of every replayed behaviour runs under recover, and
+            # "end-of-block processing can never be halted by whatever state crafted transactions left behind" needs states that
+            # transactions really left behind: deposits of zero/dust/huge amounts at the burn address, vesting there, mixed custom traffic
+            behs = []
+            for src in ('C07', 'C15', 'C08'):
+                pre = configs.preset(src, 'quick')
+                for si, sm in enumerate(pre['sims']):
+                    got = vlib.simulate(work, sm['constants'], max(20, sm['num'] // (3 if q else 1)), sm['depth'], seed + 11 + si)
+                    for bi, steps in enumerate(got):
+                        behs.append(dict(id='C17-%s-%d-%d' % (src, si, bi), cfg=sm.get('genesis', {}), views='', steps=steps))
+            tr = vlib.replay(work, harness, behs)
+            v3, d3, l3, _ = vlib.validate(work, tr)
+            for v in v3:
+                if v['id'] == 'C17':
+                    v['run'] = 'chain:' + v['run']
+            viol += v3
+            drift += [d for d in d3 if d['kind'] == 'DRIFT']
+            chain_stats = dict(behaviours=len(behs), steps=l3)
+        jobs = {}
+        for v in viol:
+            if v['run'].startswith('chain:'):
+                continue
+            try:
+                rec = json.loads(open(v['file']).read().splitlines()[v['line'] - 1])
+                key = '%s:%s' % (v['run'], json.dumps(rec.get('c', {}).get('f', {}), sort_keys=True)[:160])
+                jobs[key] = rec
+                v['run'] = key
+            except Exception:
+                pass
+        nobs = 0
+        verdicts = {}
+        for fo in parts_out:
+            for ln in open(fo):
+                nobs += 1
+        for c in cases:
+            verdicts[c['oracle']] = verdicts.get(c['oracle'], 0) + 1
+        cov = dict(states=dist, transitions=gen, traces_validated_against_impl=len(cases), samples=[cases[0], cases[len(cases) // 3], cases[-1]], evaluations=nobs,
+                   distinct_nontrivial=len(cases) - 1,
+                   rule='cases = for each of the 14 message types%s: the valid baseline, every single field-shape deviation and every pair of deviations (enumerated by TLC from Shapes.tla); '
+                        'each case is concretised into real bytes, encoded and decoded, validated, run through DeliverTx (every 7th also inside authz.MsgExec); all cases are distinct, all but the baselines non-trivial'
+                        % (' and the 12 query types and key-store files' if pid == 'C17' else ''),
+                   exhaustive=True, oracle_verdicts=verdicts, observation_records=nobs, chain_level_monitoring=chain_stats)
+        return conclude(pid, tier, seed, t0, viol, drift, cov,
+                        ['exhaustive over a finite lattice of field shapes designed from the published limits, not over all byte strings',
+                         'readings of the published limits where they are silent are listed in the header of Shapes.tla'],
+                        jobs, sig_of=lambda v: v['run'].split(':')[0])
+    finally:
+        shutil.rmtree(work, ignore_errors=True)
+
+
 NO_STORE_THEN = {'vesting', 'genutil', 'crisis'}   # modules of the first descriptor's fromVM that had no KV store at that SDK version
 STORE_NAME = {'auth': 'acc'}
 
@@ -556,6 +836,10 @@ def upgrades_static(work, harness):
 
 
 CHECKS = {
+    'C16': lambda tier, seed: shapes_check('C16', tier, seed),
+    'C17': lambda tier, seed: shapes_check('C17', tier, seed),
+    'C14': signbytes_check,
+    'C18': compkey_check,
     'C09': replicas_check,
     'C20': concurrency_check,
     'C10': lambda tier, seed: node_check('C10', tier, seed),
